@@ -175,7 +175,7 @@ func raceDriver(c *Ctx) error {
 	if err != nil {
 		return err
 	}
-	work, err := os.MkdirTemp(fsWorkDir(c), "race-")
+	work, err := os.MkdirTemp(fsWorkDir(c), scratchPrefix("race"))
 	if err != nil {
 		return err
 	}
